@@ -6,7 +6,7 @@ call graph; the set of already-built request-scoped values is threaded to every 
 Run-time construction counts are not decided.
 """
 from ..facts import callee, op_place, strip_generics
-from ..flow import Defs, backward_slice, slice_calls
+from ..flow import Defs, backward_slice, slice_calls, forward_derived
 from ..govern import field_reads_of_slice
 from ..tables import enum_switches, variant_table, guard_context
 from .compiler_common import PX
@@ -238,6 +238,84 @@ def r6_bound_once(ctx):
     ctx.floor('C03.R6', 'branches deciding between binding and inlining', n, 4)
 
 
+def r7_expanded_once(ctx):
+    ctx.rule('C03.R7', 'P1/P2: in build_call_graph the inputs of a node are expanded at most once, and "once" is per NODE: every `input_types()` '
+             'expansion site of the main loop is dominated by a membership test on a set keyed by the node index (HashSet<NodeIndex>::contains / '
+             'insert) whose "already there" edge cannot reach the expansion. A guard keyed by (node, neighbour) lets a shared request-scoped '
+             'node be expanded once per consumer, which gives each of its transient inputs a second node.')
+    b = ctx.need('C03.R7', 'build_call_graph', ctx.fb.body('pavexc', A + 'call_graph::core_graph::build_call_graph'))
+    if b is None:
+        return
+    exp = [(bb, t) for bb, t in b.calls() if (callee(t) or '').endswith('::input_types') and bb in b.reachable(b.succ(bb))]
+    if not ctx.need('C03.R7', 'input_types() expansion sites inside the loop of build_call_graph', exp):
+        return
+    guards = []
+    for bb, t in b.calls():
+        c = callee(t) or ''
+        if c.split('::')[-1] in ('contains', 'insert') and t['aty'] and 'HashSet<petgraph::graph_impl::NodeIndex' in t['aty'][0] and not t['dest'].get('p'):
+            der = forward_derived(b, {t['dest']['l']}, through_calls=True)
+            for sb in b.live_blocks():
+                w = b.term(sb)
+                if w and w['k'] == 'switch' and 'enum' not in w and op_place(w['d']) is not None and op_place(w['d'])['l'] in der:
+                    zero = [tg for v, tg in w['ts'] if v == '0']
+                    if not zero:
+                        continue
+                    # contains(): present = true edge; insert(): present = false edge
+                    present = w['else'] if c.endswith('contains') else zero[0]
+                    # an intervening `!` flips the meaning: decide by reachability instead of polarity
+                    guards.append((bb, sb, [w['else'], zero[0]]))
+    n = 0
+    for eb, et in exp:
+        ok = False
+        for gb, sb, edges in guards:
+            if not b.dominates(sb, eb):
+                continue
+            reach = [eb in b.reachable(e, avoid=[sb]) for e in edges]
+            if any(reach) and not all(reach):
+                ok = True
+        n += 1
+        ctx.ob('C03.R7', 'expanded-once|%s' % (callee(et) or '').split('::')[-2], ok, b.loc(eb, et),
+               'the expansion of %s inputs is guarded by a per-node-index membership test one of whose outcomes skips it: %s' % ((callee(et) or '').split('::')[-2], ok))
+    ctx.floor('C03.R7', 'expansion sites', n, 5)
+
+
+def r8_finished_is_monotone(ctx):
+    ctx.rule('C03.R8', 'P3/P6: in call_graph::codegen the set of finished (already emitted) nodes only grows: the `finished` bit set is touched only through '
+             'visit / is_visited / contains / clone; nothing resets a bit. A node un-marked on entering a match arm is emitted a second time inside '
+             'that arm (the error handler would see another instance of a request-scoped value).')
+    ALLOWED = {'visit', 'is_visited', 'contains', 'clone', 'len', 'count_ones', 'is_empty', 'visit_map', 'with_capacity', 'grow', 'ones'}
+    n = 0
+    for b in ctx.fb.bodies('pavexc'):
+        if b.is_promoted or 'analyses::call_graph::codegen' not in b.nid:
+            continue
+        defs = None
+        for bb, t in b.calls():
+            if not t['aty'] or 'FixedBitSet' not in t['aty'][0]:
+                continue
+            pl = op_place(t['args'][0])
+            if pl is None:
+                continue
+            defs = defs or Defs(b)
+            sl, _ = backward_slice(b, pl['l'], defs, through_calls=False)
+            fields = set()
+            for _, _, node in sl:
+                rv = node.get('rv')
+                if rv:
+                    q = rv.get('pl') or op_place(rv.get('op') or {})
+                    if q:
+                        fields |= {e[2:] for e in q.get('p', []) if e.startswith('f:')}
+            fields |= {e[2:] for e in pl.get('p', []) if e.startswith('f:')}
+            if 'finished' not in fields:
+                continue
+            n += 1
+            m = (callee(t) or '').split('::')[-1]
+            if m not in ALLOWED:
+                ctx.ob('C03.R8', 'finished-mutation|%s|%s' % (b.nroot.split('::')[-1], m), False, b.loc(bb, t),
+                       '%s is applied to the `finished` set in %s: a finished node can become unfinished' % (callee(t), b.nroot.split('::')[-1]))
+    ctx.floor('C03.R8', 'uses of the `finished` set in call_graph::codegen', n, 2)
+    ctx.ob('C03.R8', 'finished-only-grows', True, '', '%d uses of the finished set, all monotone' % n, nontrivial=False)
+
+
 def check(ctx):
     r1_tables(ctx)
     r2_dedup(ctx)
@@ -245,3 +323,5 @@ def check(ctx):
     r4_prebuilt_threaded(ctx)
     r5_derived_lifecycle(ctx)
     r6_bound_once(ctx)
+    r7_expanded_once(ctx)
+    r8_finished_is_monotone(ctx)
